@@ -129,3 +129,7 @@ package certgen
 //@   loop 1 (extension *pkix.Extension, rangeindex int) invariant extension == nil && (forall k2 int :: 0 <= k2 && k2 <= rangeindex ==> !oidEq(userCert.Extensions[k2].Id, oidIPAddressDelegation))   #C11.read-back-extension-scan @C11
 //@   loop 2 (ipAddressFamilyList []IpAdressFamily, rvalue []net.IPNet) invariant (forall n int :: 0 <= n && n < len(rvalue) ==> certifiedBlock(ipAddressFamilyList, rvalue[n]))   #C11.read-back-so-far @C11
 //@   loop 3 (ipAddressFamilyList []IpAdressFamily, rvalue []net.IPNet) invariant (forall n int :: 0 <= n && n < len(rvalue) ==> certifiedBlock(ipAddressFamilyList, rvalue[n]))   #C11.read-back-so-far-inner @C11
+
+// ---- C02 "signed with the CA's key": the certificate returned is the certificate that was signed - nothing is written
+// into it (its extension map included) after the signature was made
+//@ frozenafter GenSSHCertFileString : (*golang.org/x/crypto/ssh.Certificate).SignCert   #C02.ssh-certificate-unchanged-after-signing @C02
